@@ -242,4 +242,24 @@ let () =
         { model = show_view pr s (fun i -> typed_accumulate_at r e op srcf n ax i);
           spec = (if valid then show_view pr s (fun i -> typed_accumulate_spec r e op srcf n ax i) else "unspecified");
           dom = posb s && valid }
-    | _ -> failwith "tacc")
+    | _ -> failwith "tacc");
+  (* defer S:form S:kind A1 A2 I:axis I:c — deferred evaluation of a reduction / accumulation over a temporary operand view:
+     the view is a value over its leaf arrays, so each result is the modelled reduction of that call's transformed data *)
+  register "defer" (fun a -> match a with
+    | [form; _; a1; a2; ax; c] ->
+        let form = getS form and c = getI c in
+        let mapA g = function A (s, d) -> A (s, List.map g d) | _ -> failwith "array" in
+        let three = z_of_int 3 and one = z_of_int 1 in
+        let run arr cc =
+          let h name args = (Hashtbl.find handlers name) args in
+          (match form with
+           | "red" -> h "reduce" [Str "lin"; Str "reduce"; Str "int"; Str "def"; Str "dyn"; mapA Z.opp arr; ax; I cc]
+           | "redk" -> h "reduce" [Str "sum"; Str "named"; Str "vec"; Str "rt1"; Str "dyn"; mapA Z.opp arr; L [getI ax]; N]
+           | "acc" -> h "accum" [Str "lin"; Str "dyn"; mapA Z.opp arr; ax]
+           | "sumv" -> h "reduce" [Str "sum"; Str "named"; Str "int"; Str "def"; Str "dyn"; mapA (Z.add (Z.add cc one)) arr; ax; N]
+           | f -> failwith ("defer form " ^ f)) in
+        let r1 = run a1 c and r2 = run a2 (Z.add c three) in
+        { model = r1.model ^ " | " ^ r2.model;
+          spec = (if r1.spec = "unspecified" || r2.spec = "unspecified" then "unspecified" else r1.spec ^ " | " ^ r2.spec);
+          dom = r1.dom && r2.dom }
+    | _ -> failwith "defer")
